@@ -194,7 +194,9 @@ Op_copy_b(st, own, s, d, co) == LET fs == st.fs IN
   ELSE IF ~Exists(fs, s) THEN R(st, RErr("Path::DoesNotExist"))
   ELSE IF s = Root THEN [st |-> st, res |-> RAny, alt |-> {}, partial |-> TRUE, paired |-> FALSE]   \* D9
   ELSE IF co.follow /\ IsLink(fs, s) /\ Exists(fs, fs[s].t) /\ ~IsLink(fs, fs[s].t) /\ \A x \in Sub(fs, fs[s].t) : ~IsLink(fs, x)
-       THEN Op_copy_b(st, own, fs[s].t, d, [co EXCEPT !.follow = FALSE])                              \* follow: the source link stands for its target
+       THEN (IF IsDir(fs, d) /\ Base(s) # Base(fs[s].t)
+             THEN [st |-> st, res |-> RAny, alt |-> {}, partial |-> TRUE, paired |-> FALSE]          \* copied INTO d: under the link's or the target's name? not settled (A24)
+             ELSE Op_copy_b(st, own, fs[s].t, d, [co EXCEPT !.follow = FALSE]))                      \* follow: the source link stands for its target
   ELSE IF co.follow /\ \E x \in Sub(fs, s) : IsLink(fs, x)
        THEN [st |-> st, res |-> RAny, alt |-> {}, partial |-> TRUE, paired |-> FALSE]                 \* links below a followed source: placement not settled (A24, open)
   ELSE LET t == IF IsDir(fs, d) THEN Append(d, Base(s)) ELSE d
